@@ -1,6 +1,8 @@
 package simharness
 
 import (
+	"net/url"
+	"github.com/hashicorp/eventlogger/formatter_filters/cloudevents"
 	"context"
 	"fmt"
 	"sort"
@@ -163,7 +165,30 @@ func runReentrant(rc *RunCtx) {
 		desc.Reentry = append(desc.Reentry, fmt.Sprintf("gated.Filter(broker=%v, expiration=%v)", gf.Broker != nil, gf.Expiration))
 	}
 	broker.RegisterNode("re", re)
-	broker.RegisterNode("f", mk("f", el.NodeTypeFormatter))
+	// the formatter may be the cloudevents formatter with a Signer that reports to the Broker: the
+	// report is an event of the same type, so it passes through the same formatter node
+	var ce *cloudevents.FormatterFilter
+	signDepth := 0
+	if tp.Choose(3, "cloudevents-signer-sends") == 0 {
+		src, _ := url.Parse("https://example.com/c12")
+		ce = &cloudevents.FormatterFilter{Source: src, SignEventTypes: []string{"ta"}}
+		ce.Signer = func(ctx context.Context, b []byte) (string, error) {
+			simrt.Yield("signer")
+			if signDepth == 0 {
+				signDepth++
+				simrt.Probe("reentry.signer")
+				broker.Send(context.Background(), "ta", &plainPayload{N: -1})
+				signDepth--
+			}
+			return "sig", nil
+		}
+		desc.Reentry = append(desc.Reentry, "cloudevents Signer calls Send (same event type)")
+	}
+	if ce != nil {
+		broker.RegisterNode("f", ce)
+	} else {
+		broker.RegisterNode("f", mk("f", el.NodeTypeFormatter))
+	}
 	broker.RegisterNode("s", mk("s", el.NodeTypeSink))
 	ids = append(ids, "re", "f", "s")
 	if err := broker.RegisterPipeline(el.Pipeline{PipelineID: "p0", EventType: "ta", NodeIDs: ids}); err != nil {
@@ -268,6 +293,9 @@ func runReentrant(rc *RunCtx) {
 				default:
 					broker.IsAnyPipelineRegistered("ta")
 					broker.SuccessThreshold("ta")
+					if ce != nil {
+						ce.Rotate(func(ctx context.Context, b []byte) (string, error) { return "sig2", nil })
+					}
 				}
 			}
 			writersDone++
